@@ -92,7 +92,7 @@ type gen struct {
 }
 
 func (g *gen) genInt() int {
-	if g.wide && g.r.P(1, 2) {
+	if g.wide && g.r.P(5, 6) {
 		return int(g.r.U64()>>40) - (1 << 23)
 	}
 	if g.r.P(1, 12) {
@@ -142,7 +142,7 @@ func (g *gen) genStr() *string {
 }
 
 func (g *gen) pickN() int {
-	ns := []int{0, 1, 2, 3, 3, 4, 5, 7, 12, 13, 20}
+	ns := []int{0, 1, 2, 3, 4, 5, 6, 7, 8, 10, 12, 13, 16, 20}
 	if g.size >= 2 {
 		ns = append(ns, 40, 41, 64, 100, 200)
 	}
@@ -199,6 +199,8 @@ func (g *gen) genNew() {
 				cn = n
 			}
 		}
+		// value alphabet per column: narrow (many ties: group keys) or wide (mostly distinct: sorting by it permutes the rows freely)
+		g.wide = r.P(1, 3)
 		kind := r.Pick([]string{"I", "I", "F", "F", "B", "S", "S", "T", "EN", "EN", "CI", "CF", "CB", "CS"})
 		if g.opt["enumheavy"] != "" && r.P(1, 2) {
 			kind = r.Pick([]string{"EN", "EN", "ENBIG"})
@@ -645,8 +647,19 @@ func (g *gen) pickFrame(wantOK bool) *hframe {
 	}
 	for try := 0; try < 20; try++ {
 		f := g.fam[g.r.Intn(len(g.fam))]
-		if g.r.Bool() && len(g.fam) > 3 {
-			f = g.fam[len(g.fam)-1-g.r.Intn(3)]
+		switch g.r.Intn(3) {
+		case 0:
+			if len(g.fam) > 3 {
+				f = g.fam[len(g.fam)-1-g.r.Intn(3)] // one of the most recent members
+			}
+		case 1:
+			// prefer members with many rows (aggregations and filters shrink the family otherwise)
+			for k := 0; k < 3; k++ {
+				c := g.fam[g.r.Intn(len(g.fam))]
+				if !c.err && c.n > f.n {
+					f = c
+				}
+			}
 		}
 		if f.digest == "panic" {
 			continue
@@ -1156,6 +1169,11 @@ func (g *gen) genInstr(f *hframe, cols []colInfo, bad bool, written map[string]b
 		}
 		in.Fn = e.fn
 		toks = append(toks, tx.HexS(c.name), "-", "f1", e.id)
+	case kind == 12 && r.Bool(): // a ColumnName copy of an unknown column onto itself
+		in.DstCol = "nosuch"
+		toks[0] = tx.HexS("nosuch")
+		in.Fn = types.ColumnName("nosuch")
+		toks = append(toks, "-", "-", "col", tx.HexS("nosuch"))
 	case kind == 12: // unsupported zero-arg type
 		in.Fn = struct{}{}
 		toks = append(toks, "-", "-", "bad")
@@ -1682,6 +1700,9 @@ func (g *gen) genOp() {
 			dst = r.Pick(illegalNames)
 		}
 		from := g.colNameMaybeBad(src, bad && r.Bool())
+		if bad && r.P(1, 3) {
+			dst, from = "nosuch", "nosuch" // copying an unknown column onto itself is still an unknown column
+		}
 		g.w.Line(append(head, "copy", tx.HexS(dst), tx.HexS(from))...)
 		g.finish(fid, func() qframe.QFrame { return g.qfOf(src).Copy(dst, from) })
 	case "apply":
@@ -1717,6 +1738,10 @@ func (g *gen) genOp() {
 		dst := g.newName(src)
 		if bad && r.P(1, 4) {
 			dst = r.Pick(illegalNames)
+		}
+		if bad && r.P(1, 5) {
+			dst = "nosuch"
+			e = exprT{types.ColumnName("nosuch"), []string{"C", tx.HexS("nosuch")}}
 		}
 		ctxKind := r.Pick([]string{"m", "m", "d", "o"})
 		g.w.Line(append(append(head, "eval", tx.HexS(dst), ctxKind), e.toks...)...)
@@ -1784,6 +1809,72 @@ func (g *gen) genOp() {
 	case "equals":
 		other := g.pickFrame(false)
 		g.equals(src, other)
+	case "grouptest":
+		// a fresh frame made for grouping: few keys, distinct values, rows freely permuted by a sort, then aggregated
+		if g.batchMode {
+			return
+		}
+		n := 5 + r.Intn(9)
+		nk := 2 + r.Intn(2)
+		keys := make([]int, n)
+		vals := make([]int, n)
+		perm := make([]int, n)
+		for i := range keys {
+			keys[i] = r.Intn(nk)
+			vals[i] = 10 * (i + 1)
+			perm[i] = i
+		}
+		for i := n - 1; i > 0; i-- {
+			j := r.Intn(i + 1)
+			perm[i], perm[j] = perm[j], perm[i]
+		}
+		toks := []string{"N", tx.Int(fid), "3", tx.HexS("k"), "I", tx.Int(n)}
+		for _, x := range keys {
+			toks = append(toks, tx.CInt(x))
+		}
+		toks = append(toks, tx.HexS("p"), "I", tx.Int(n))
+		for _, x := range perm {
+			toks = append(toks, tx.CInt(x))
+		}
+		toks = append(toks, tx.HexS("v"), "I", tx.Int(n))
+		for _, x := range vals {
+			toks = append(toks, tx.CInt(x))
+		}
+		g.w.Line(append(toks, "O", "0", "E", "0")...)
+		f0 := g.finish(fid, func() qframe.QFrame {
+			return qframe.New(map[string]types.DataSlice{"k": keys, "p": perm, "v": vals})
+		})
+		fid1 := g.freshFid()
+		g.w.Line("O", tx.Int(fid1), tx.Int(f0.id), "sort", "1", tx.HexS("p"), tx.Bool01(false), tx.Bool01(false))
+		f1 := g.finish(fid1, func() qframe.QFrame { return f0.qf.Sort(qframe.Order{Column: "p"}) })
+		fid2 := g.freshFid()
+		fn := r.Pick([]string{"sum", "max", "min"})
+		g.w.Line("O", tx.Int(fid2), tx.Int(f1.id), "groupagg", "0", "1", tx.HexS("k"), "2", "s"+tx.HexS(fn), tx.HexS("v"), tx.HexS(""), "u:last", tx.HexS("v"), tx.HexS("vl"))
+		g.finish(fid2, func() qframe.QFrame {
+			return f1.qf.GroupBy(groupby.Columns("k")).Aggregate(qframe.Aggregation{Fn: fn, Column: "v"}, qframe.Aggregation{Fn: aggLastI, Column: "v", As: "vl"})
+		})
+	case "permute":
+		// a free permutation of the rows through public operations only: a column of pseudo-random distinct numbers, Sort by it, Drop it
+		if g.batchMode || src.err || src.n < 2 {
+			return
+		}
+		for _, c := range src.cols {
+			if c.name == "zz" {
+				return
+			}
+		}
+		seed := 1 + r.Intn(1000)
+		k := -1
+		perm := func() int { k++; return (seed*7919 + k*104729) % 1000003 }
+		g.w.Line(append(head, "apply", "1", tx.HexS("zz"), "-", "-", "f0r", tx.Int(seed))...)
+		f1 := g.finish(fid, func() qframe.QFrame { return g.qfOf(src).Apply(qframe.Instruction{Fn: perm, DstCol: "zz"}) })
+		g.w.Line("CB", tx.Int(fid), "1", "-1")
+		fid2 := g.freshFid()
+		g.w.Line("O", tx.Int(fid2), tx.Int(f1.id), "sort", "1", tx.HexS("zz"), "0", "0")
+		f2 := g.finish(fid2, func() qframe.QFrame { return f1.qf.Sort(qframe.Order{Column: "zz"}) })
+		fid3 := g.freshFid()
+		g.w.Line("O", tx.Int(fid3), tx.Int(f2.id), "drop", "1", tx.HexS("zz"))
+		g.finish(fid3, func() qframe.QFrame { return f2.qf.Drop("zz") })
 	case "rebuild":
 		g.rebuild(src)
 	case "tocsv":
